@@ -52,7 +52,7 @@ def loop_source(loop: ast.For) -> Tuple[Optional[str], Optional[ast.AST], Option
     return None, sl, idx
 
 
-LATER_RULES = ' Later rule: (R10.9) a rule that moves a definition and rewrites its references uses one transaction value.'
+LATER_RULES = ' Later rule: (R10.9) a rule that moves a definition and rewrites its references uses one transaction value. (R10.10) no single rewrite of an accepted transaction is refused on an ignore test against the partly rewritten text.'
 
 
 def check(prog: Program, tier: str) -> Result:
@@ -155,7 +155,7 @@ def check(prog: Program, tier: str) -> Result:
     # ---------------------------------------------------------------- R10.8 precedence order
     _check_precedence(prog, res, S)
     _r10_9(prog, res)
-    res.floors.update({"R10.1": 1, "R10.2": 2, "R10.3": 2, "R10.4": 3, "R10.5": 3, "R10.6": 1, "R10.7": 2, "R10.8": 2, "R10.9": 1})
+    res.floors.update({"R10.1": 1, "R10.2": 2, "R10.3": 2, "R10.4": 3, "R10.5": 3, "R10.6": 1, "R10.7": 2, "R10.8": 2, "R10.9": 1, "R10.10": 1})
     res.analysed.update({"insertion_sites": len(S.inserts), "returned_collection": S.R})
     return res
 
@@ -617,11 +617,46 @@ def _check_apply(prog, res, S: Scheduler) -> None:
                f"single loop over '{list_p}' in order; every rewrite threads the text through _do_rewrite" if ok else
                ("a scheduled rewrite can be skipped or the loop left early" if conditional else "the loop body does not thread the text through _do_rewrite"))
     if threaded is not None:
+        _r10_10(prog, res, ap, threaded.value)
+    if threaded is not None:
         T = threaded.targets[0].id
         inits = [v for s, v in assignments(ap, T) if s is not threaded and s.lineno < loop.lineno]
         init_ok = all(isinstance(v, ast.Name) and v.id == text_p for v in inits) and bool(inits) or T == text_p
         res.decide(init_ok, "R10.4", ap.loc(threaded), ap.fq, f"threaded text {T}",
                    "starts from the input text" if init_ok else f"'{T}' does not start from the input parameter '{text_p}'")
+
+
+def _r10_10(prog, res, ap: Func, call: ast.Call) -> None:
+    """All or nothing while applying: the scheduler accepted the transaction after testing every range for ignore comments on
+    the text the ranges were computed for.  The function that applies ONE rewrite gets the partly rewritten text; an ignore
+    test of its own there sees what later rewrites of the same line have already put in (a replacement that carries the
+    comment, or mentions it in a string) and refuses this single rewrite: the transaction is half applied, and the result
+    still parses, so nothing rolls it back.  Obligation: every ignore test in the single-rewrite applier that leads to
+    handing the text back is switched off (a condition on a parameter) for the call from the scheduled applier."""
+    from ..pathcond import PathAnalysis, plain
+    r = prog.resolve_call(call.func, ap.mod, ap)
+    one = r[1]
+    passed = {k.arg: k.value for k in call.keywords}
+    tests = [c for c in prog.calls_in(one) if (prog.dotted(c.func) or "").split(".")[-1] == "has_ignore_comment"]
+    if not tests:
+        res.ok("R10.10", one.loc(), one.fq, f"{one.node.name}() # applies one scheduled rewrite", "no ignore test of its own: the scheduler decides for the whole transaction")
+        return
+    pa = PathAnalysis(prog, one)
+    for t in tests:
+        # the condition under which the test is evaluated: every world at the test carries a fact `P` (positive literal of a
+        # parameter) that the scheduled applier passes false, or `not P` for one it passes true
+        worlds = pa.worlds_at(t)
+        off = False
+        for p_name, v in passed.items():
+            if not isinstance(v, ast.Constant):
+                continue
+            want = not bool(v.value)        # the test may only be reached when P has the OTHER value
+            if worlds and all(any(f[0] == "lit" and plain(f[1]) == p_name and f[2] == want for f in w.facts) for w in worlds):
+                off = True
+        res.decide(off, "R10.10", one.loc(t), one.fq, f"{short(t, 60)} # ignore test while a transaction is applied",
+                   "not evaluated for scheduled rewrites" if off else
+                   "a scheduled rewrite is tested again on the PARTLY REWRITTEN text and refused on its own: when another rewrite of the transaction has put "
+                   "`# pyrefact: ignore` (as a comment or inside a string) on the same line, the transaction is half applied and the result still parses")
 
 
 def _check_decorators(prog, res) -> None:
@@ -786,6 +821,10 @@ _INTER = """                for _, (other, _) in scheduled_rewrites:
 """
 
 VARIANTS = [
+    Variant("scheduled-rewrites-tested-again-one-by-one", "FIRE", "processing", "    if not scheduled and core.has_ignore_comment(source, core.Range(start, end)):", "    if core.has_ignore_comment(source, core.Range(start, end)):", "R10.10"),
+    Variant("applier-forgets-to-say-the-rewrites-are-scheduled", "FIRE", "processing", "new_source, rewrite, fix_function_name=transaction.group_name, scheduled=True", "new_source, rewrite, fix_function_name=transaction.group_name", "R10.10"),
+    Variant("ignore-test-of-single-rewrites-nested-under-the-flag", "SILENT", "processing", "    if not scheduled and core.has_ignore_comment(source, core.Range(start, end)):\n        return source\n",
+            "    if not scheduled:\n        if core.has_ignore_comment(source, core.Range(start, end)):\n            return source\n"),
     Variant("moves-in-transactions-of-their-own", "FIRE", "object_oriented", "            yield None, funcdef_static, transaction\n", "            yield None, funcdef_static, transaction\n\n            transaction += 1\n", "R10.9"),
     Variant("intra-loop-forgets-flag", "FIRE", "processing", _INTRA, _INTRA.replace("                        conflicting = True\n", ""), "R10.1"),
     Variant("inter-loop-forgets-flag", "FIRE", "processing", _INTER, _INTER.replace("                        conflicting = True\n", ""), "R10.1"),
